@@ -14,6 +14,8 @@
 //! `replay`  TLC-generated content (REPLAY lines): Given -> Decode -> Encode -> Decode.
 //! `history` schedules of ContentHist (disturbances = decoding damaged input, per thread) around judged calls:
 //!           Reset -> (Encode -> Decode)* -> Disturb* -> the same (Encode -> Decode)*.
+//! `streams` operations decoded through a Stream value under filter chains (none, compress(), Flate, ASCII85, ASCIIHex,
+//!           chains) and through a saved and loaded document: DecodeVia events, judged like Decode of the plain bytes.
 //! `deep`    nesting at both limits (arrays / dictionaries around a literal string with nested parentheses) decoded on a
 //!           2 MiB thread of a supervised worker process (`worker`; `--exe` may be a debug-profile build of this binary).
 //! `inline`  seeded inline images (all supported colour spaces x BPC x small geometry, data with EI,
@@ -333,6 +335,9 @@ fn probes() -> Vec<(String, Vec<Operation>)> {
     add("operator-digit", vec![op("d0", vec![Object::Integer(5), Object::Integer(0)]), op("q", vec![])]);
     add("operator-digit", vec![op("d1", vec![Object::Integer(1), Object::Integer(0), Object::Integer(0), Object::Integer(0), Object::Integer(9), Object::Integer(9)])]);
     add("operator-other-regular", vec![op("a-b", vec![]), op("x1", vec![])]);
+    // a keyword followed by a digit / sign is one token outside the operator alphabet (like d0): observations
+    add("operator-keyword-digit", vec![op("true1", vec![]), op("Tj", vec![lit(b"a")])]);
+    add("operator-keyword-digit", vec![op("null.5", vec![Object::Integer(1)])]);
     add("operator-empty", vec![op("", vec![Object::Integer(1)])]);
     add("operand-reference", vec![op("Do", vec![Object::Reference((1, 0))])]);
     add("operand-reference-nested", vec![op("TJ", vec![Object::Array(vec![Object::Reference((1, 0))])])]);
@@ -1120,6 +1125,228 @@ fn history(args: &[String]) {
     out.finish();
 }
 
+// ---------------------------------------------------------------------------------------------
+// content decoded THROUGH a Stream value: filters are transparent (decode of the stream = decode of its plain bytes)
+
+fn flate(data: &[u8]) -> Vec<u8> {
+    use std::io::Write;
+    let mut e = flate2::write::ZlibEncoder::new(Vec::new(), flate2::Compression::default());
+    e.write_all(data).expect("deflate");
+    e.finish().expect("deflate")
+}
+
+fn ascii85(data: &[u8]) -> Vec<u8> {
+    let mut out = vec![];
+    for chunk in data.chunks(4) {
+        let mut b = [0u8; 4];
+        b[..chunk.len()].copy_from_slice(chunk);
+        let mut v = u32::from_be_bytes(b);
+        if v == 0 && chunk.len() == 4 {
+            out.push(b'z');
+            continue;
+        }
+        let mut d = [0u8; 5];
+        for i in (0..5).rev() {
+            d[i] = (v % 85) as u8 + b'!';
+            v /= 85;
+        }
+        out.extend_from_slice(&d[..chunk.len() + 1]);
+    }
+    out.extend_from_slice(b"~>");
+    out
+}
+
+fn ascii_hex(data: &[u8]) -> Vec<u8> {
+    let mut out: Vec<u8> = data.iter().flat_map(|b| format!("{b:02X}").into_bytes()).collect();
+    out.push(b'>');
+    out
+}
+
+/// a stream whose stored content is `plain` under the named filter chain (applied by a reader left to right)
+fn filtered_stream(plain: &[u8], chain: &str) -> Option<lopdf::Stream> {
+    let mut s = lopdf::Stream::new(Dictionary::new(), plain.to_vec());
+    match chain {
+        "none" => {}
+        "compress()" => {
+            s.compress().ok()?;
+            if s.dict.get(b"Filter").is_err() {
+                return None; // too small to be worth compressing: same as "none"
+            }
+        }
+        "empty-array" => s.dict.set("Filter", Object::Array(vec![])),
+        "flate" => {
+            s.set_content(flate(plain));
+            s.dict.set("Filter", name(b"FlateDecode"));
+        }
+        "a85" => {
+            s.set_content(ascii85(plain));
+            s.dict.set("Filter", name(b"ASCII85Decode"));
+        }
+        "ahx" => {
+            s.set_content(ascii_hex(plain));
+            s.dict.set("Filter", Object::Array(vec![name(b"ASCIIHexDecode")]));
+        }
+        "a85+flate" => {
+            s.set_content(ascii85(&flate(plain)));
+            s.dict.set("Filter", Object::Array(vec![name(b"ASCII85Decode"), name(b"FlateDecode")]));
+        }
+        _ => {
+            s.set_content(ascii_hex(&flate(plain)));
+            s.dict.set("Filter", Object::Array(vec![name(b"ASCIIHexDecode"), name(b"FlateDecode")]));
+        }
+    }
+    Some(s)
+}
+
+fn put_via(out: &mut NdjsonOut, case: u64, cls: &str, via: &str, chain: &str, r: Result<Vec<Operation>, String>) {
+    match r {
+        Ok(ops) => out.put(&json!({"ev": "DecodeVia", "case": case, "cls": cls, "via": via, "filters": chain, "res": "ok", "ops": ops_to_tla(&ops)})),
+        Err(e) => out.put(&json!({"ev": "DecodeVia", "case": case, "cls": cls, "via": via, "filters": chain, "res": e, "ops": []})),
+    }
+}
+
+fn wrap<T>(r: Result<lopdf::Result<T>, String>) -> Result<T, String> {
+    match r {
+        Ok(Ok(v)) => Ok(v),
+        Ok(Err(e)) => Err(format!("err:{e:?}")),
+        Err(p) => Err(format!("panic:{p}")),
+    }
+}
+
+/// a one-page document whose page content is `stream`
+fn page_doc(stream: lopdf::Stream) -> (lopdf::Document, lopdf::ObjectId, lopdf::ObjectId) {
+    let mut doc = lopdf::Document::with_version("1.5");
+    let pages_id = doc.new_object_id();
+    let contents_id = doc.add_object(stream);
+    let mut page = Dictionary::new();
+    page.set("Type", name(b"Page"));
+    page.set("Parent", Object::Reference(pages_id));
+    page.set("Contents", Object::Reference(contents_id));
+    let page_id = doc.add_object(page);
+    let mut pages = Dictionary::new();
+    pages.set("Type", name(b"Pages"));
+    pages.set("Kids", Object::Array(vec![Object::Reference(page_id)]));
+    pages.set("Count", Object::Integer(1));
+    pages.set("MediaBox", Object::Array(vec![0.into(), 0.into(), 612.into(), 792.into()]));
+    doc.objects.insert(pages_id, Object::Dictionary(pages));
+    let mut cat = Dictionary::new();
+    cat.set("Type", name(b"Catalog"));
+    cat.set("Pages", Object::Reference(pages_id));
+    let cat_id = doc.add_object(cat);
+    doc.trailer.set("Root", Object::Reference(cat_id));
+    (doc, page_id, contents_id)
+}
+
+fn streams(args: &[String]) {
+    let seed = arg_u64(args, "--seed", 1);
+    let n = arg_u64(args, "--n", 20);
+    let mut out = NdjsonOut::create(&arg(args, "--out").unwrap());
+    let mut rng = Rng::new(seed ^ 0xC14_0005);
+    // operation lists: long enough for compress() to pay, fixed hostile ones, seeded random ones
+    let mut lists: Vec<(String, Vec<Operation>)> = vec![];
+    lists.push(("lines-120".to_string(), (0..40i64).flat_map(|i| vec![op("m", vec![i.into(), 0.into()]), op("l", vec![i.into(), 100.into()]), op("S", vec![])]).collect()));
+    for (c, ops) in special_cases().into_iter().filter(|(c, _)| ["special.text", "special.strings", "special.names-hostile", "special.marked", "special.numbers"].contains(&c.as_str())) {
+        lists.push((c, ops));
+    }
+    lists.push(("inline".to_string(), vec![op("q", vec![]), api_image("RGB", false, 3, 2, 8, vec![], b' '), op("Q", vec![])]));
+    for i in 0..n {
+        let mut ops = vec![];
+        for _ in 0..(1 + rng.below(12)) {
+            ops.extend(random_ops(&mut rng, i % 2 == 0, 6));
+        }
+        lists.push(("random".to_string(), ops));
+    }
+    let chains = ["none", "compress()", "empty-array", "flate", "a85", "ahx", "a85+flate", "ahx+flate"];
+    let mut case = 0u64;
+    for (li, (lc, ops)) in lists.iter().enumerate() {
+        let plain = match encode(ops) {
+            Ok(b) => b,
+            Err(_) => continue,
+        };
+        for chain in chains {
+            let Some(stream) = filtered_stream(&plain, chain) else { continue };
+            let cls = format!("stream.{lc}");
+            // the reference point: Content::encode of the operations and Content::decode of the plain bytes
+            out.put(&json!({"ev": "Encode", "case": case, "cls": cls, "ops": ops_to_tla(ops), "res": "ok", "bytes": bytes_to_json(&plain)}));
+            put_decode(&mut out, case, &cls, &plain);
+            // (a) Stream::decode_content
+            let s1 = stream.clone();
+            put_via(&mut out, case, &cls, "Stream::decode_content", chain, wrap(guarded(move || s1.decode_content())).map(|c| c.operations));
+            // (b) the modify-style loop of tests/modify.rs: decode_content -> (edit nothing) -> write the encoded content
+            // back -> read the page content again.  set_plain_content is the call for unfiltered bytes; set_content
+            // stores raw bytes and is only equivalent when the stream has no filter
+            for setter in ["set_plain_content", "set_content"] {
+                if setter == "set_content" && !["none", "empty-array"].contains(&chain) {
+                    continue;
+                }
+                let mut s2 = stream.clone();
+                let r = wrap(guarded(move || -> lopdf::Result<Vec<Operation>> {
+                    let content = s2.decode_content()?;
+                    let bytes = content.encode()?;
+                    if setter == "set_content" {
+                        s2.set_content(bytes);
+                    } else {
+                        s2.set_plain_content(bytes);
+                    }
+                    Ok(Content::decode(&s2.get_plain_content()?)?.operations)
+                }));
+                put_via(&mut out, case, &cls, &format!("modify-loop.{setter}"), chain, r);
+            }
+            // (c) through a document: page content, saved and loaded; both decoders on the loaded page
+            if li % 2 == 0 || chain == "compress()" {
+                let s3 = stream.clone();
+                let r = guarded(move || -> lopdf::Result<(Vec<Operation>, Vec<Operation>)> {
+                    let (mut doc, _, _) = page_doc(s3);
+                    let mut bytes = Vec::new();
+                    doc.save_to(&mut bytes)?;
+                    let loaded = lopdf::Document::load_mem(&bytes)?;
+                    let page_id = *loaded.get_pages().values().next().ok_or(lopdf::Error::PageNumberNotFound(1))?;
+                    let a = loaded.get_and_decode_page_content(page_id)?.operations;
+                    let cid = loaded.get_page_contents(page_id)[0];
+                    let b = loaded.get_object(cid)?.as_stream()?.decode_content()?.operations;
+                    Ok((a, b))
+                });
+                match wrap(r) {
+                    Ok((a, b)) => {
+                        put_via(&mut out, case, &cls, "Document::get_and_decode_page_content(save;load)", chain, Ok(a));
+                        put_via(&mut out, case, &cls, "Stream::decode_content(save;load)", chain, Ok(b));
+                    }
+                    Err(e) => put_via(&mut out, case, &cls, "Document::get_and_decode_page_content(save;load)", chain, Err(e)),
+                }
+            }
+            case += 1;
+        }
+        // (d) add_to_page_content -> Document::compress -> save -> load (the path of the library's own examples)
+        let ops2 = ops.clone();
+        let cls = format!("stream.{lc}");
+        let r = guarded(move || -> lopdf::Result<(Vec<Operation>, Vec<Operation>, bool)> {
+            let (mut doc, page_id, _) = page_doc(lopdf::Stream::new(Dictionary::new(), vec![]));
+            doc.add_to_page_content(page_id, Content { operations: ops2 })?;
+            doc.compress();
+            let mut bytes = Vec::new();
+            doc.save_to(&mut bytes)?;
+            let loaded = lopdf::Document::load_mem(&bytes)?;
+            let page_id = *loaded.get_pages().values().next().ok_or(lopdf::Error::PageNumberNotFound(1))?;
+            let a = loaded.get_and_decode_page_content(page_id)?.operations;
+            let cid = *loaded.get_page_contents(page_id).last().ok_or(lopdf::Error::PageNumberNotFound(1))?;
+            let st = loaded.get_object(cid)?.as_stream()?;
+            Ok((a, st.decode_content()?.operations, st.dict.get(b"Filter").is_ok()))
+        });
+        out.put(&json!({"ev": "Encode", "case": case, "cls": cls, "ops": ops_to_tla(ops), "res": "ok", "bytes": bytes_to_json(&plain)}));
+        put_decode(&mut out, case, &cls, &plain);
+        match wrap(r) {
+            Ok((a, b, filtered)) => {
+                let chain = if filtered { "Document::compress" } else { "none" };
+                put_via(&mut out, case, &cls, "add_to_page_content;compress;save;load;get_and_decode_page_content", chain, Ok(a));
+                put_via(&mut out, case, &cls, "add_to_page_content;compress;save;load;Stream::decode_content", chain, Ok(b));
+            }
+            Err(e) => put_via(&mut out, case, &cls, "add_to_page_content;compress;save;load;get_and_decode_page_content", "Document::compress", Err(e)),
+        }
+        case += 1;
+    }
+    out.finish();
+}
+
 fn main() {
     let args: Vec<String> = std::env::args().collect();
     match args.get(1).map(String::as_str) {
@@ -1128,10 +1355,11 @@ fn main() {
         Some("replay") => replay(&args),
         Some("inline") => inline(&args),
         Some("history") => history(&args),
+        Some("streams") => streams(&args),
         Some("worker") => worker(),
         Some("deep") => deep(&args),
         _ => {
-            eprintln!("usage: c14 record --seed S --n N [--rows all|critical|none] --out F | cases --seed S --n N --out F | replay --in F --out F | inline --seed S --n N --out F | history --seed S --in F --out F [--reps N] | deep --exe PATH --label L [--stack BYTES] --out F | worker");
+            eprintln!("usage: c14 record --seed S --n N [--rows all|critical|none] --out F | cases --seed S --n N --out F | replay --in F --out F | inline --seed S --n N --out F | history --seed S --in F --out F [--reps N] | streams --seed S --n N --out F | deep --exe PATH --label L [--stack BYTES] --out F | worker");
             std::process::exit(2)
         }
     }
